@@ -630,6 +630,23 @@ func (x *c08exec) run(worker int, seed *c08seedDoc, m jmut) {
 			if pv != nil {
 				report("ProofList.Verify(labels)", pv, stack)
 			}
+			// label lists of other lengths: empty but not nil (same as no labels), one short, one long (must be refused)
+			for _, ll := range []int{0, len(fresh) - 1, len(fresh) + 1} {
+				if ll < 0 {
+					continue
+				}
+				var f3 gabi.ProofList
+				_ = json.Unmarshal(m.doc, &f3)
+				okl, pv, stack := verifyList(f3, keysFor(len(f3), false), seed.ctx, seed.nonce, false, make([]string, ll))
+				r.Eval("verify-labels", outcome(okl, pv))
+				if pv != nil {
+					report(fmt.Sprintf("ProofList.Verify(%d labels for %d proofs)", ll, len(f3)), pv, stack)
+				}
+				if okl && (ll != 0 || !ok) {
+					r.Violation("C08/malformed-accepted/labels", fmt.Sprintf("ProofList.Verify accepts with %d labels for %d proofs (without labels: %v) (seed %s, mutation %s)", ll, len(f3), ok, seed.name, m.desc),
+						map[string]any{"seed": seed.name, "mutation": m.desc, "document": json.RawMessage(safeRaw(m.doc)), "labels": ll})
+				}
+			}
 		}
 	}
 	// object history: the decoded objects are verified under their own keys first (which fills whatever the proofs
